@@ -465,6 +465,9 @@ def check_metadata(ctx, r):
             ctx.bad("C07.4", jt, jt.node, f"jaxtyped has no branch for `{kind}` objects: the descriptor kind is lost", construct=f"no isinstance(fn, {kind}) branch")
             continue
         rets = [x for x in st.body if isinstance(x, ast.Return)]
+        if not rets and not any(isinstance(x, ast.Return) for b_ in st.body for x in ast.walk(b_)):
+            # the branch only records what to do (a plan, a flag); the descriptor is rebuilt elsewhere, by code the rule does not follow
+            raise AnalysisError(f"C07.4: the `isinstance(fn, {kind})` branch of jaxtyped returns nothing itself (`{short(st.body[0], 50)}`): where the {kind} is rebuilt was not followed")
         ok = False
         for rt in rets:
             v = rt.value
